@@ -83,19 +83,38 @@ Definition val_encodable (f : tfield) (v : tval) : Prop :=
   | FDec maxv, VInt z => 0 <= z <= maxv
   | FTtl, VInt z => 0 <= z <= MAX_TTL
   | FQStr _ ctormax _, VBytes b => ctormax = 0 \/ zlen b <= ctormax
-  | FName, VName n => True
+  | FAlg, VInt z => 0 <= z <= 255
+  | FHexTok, VBytes b => zlen b <= 255
+  | FTag, VBytes b => zlen b <= 255
   | _, _ => True
   end.
 
-Theorem parse_field_encodable c f st v st' :
-  parse_field c f st = Ok (v, st') -> val_encodable f v.
+Lemma alg_from_text_range t z : alg_from_text t = Ok z -> 0 <= z <= 255.
 Proof.
-  destruct f as [maxv| |tokmax ctormax ne| | |sc| |v6]; cbn [parse_field]; intros H.
+  unfold alg_from_text.
+  assert (T : forall k v, assoc_text k alg_table = Some v -> 0 <= v <= 255).
+  { intros k v. unfold alg_table. cbn [assoc_text].
+    repeat (destruct (zlist_eqb k _); [intros E; inversion E; lia|]). discriminate. }
+  destruct (assoc_text (map upper_c t) alg_table) as [v|] eqn:E.
+  - intros H. inversion H; subst. eapply T; eauto.
+  - destruct (negb (is_nil (map upper_c t)) && forallb is_decimal (map upper_c t)) eqn:Ed; [|discriminate].
+    destruct (dec_value (map upper_c t) 0 >? 255) eqn:Eg; [discriminate|]. intros H. inversion H; subst.
+    apply andb_true_iff in Ed as [_ Ed]. split; [|lia].
+    assert (G : forall s a, 0 <= a -> forallb is_decimal s = true -> 0 <= dec_value s a).
+    { induction s as [|x s IHs]; intros a Ha Hs; [exact Ha|]. cbn [forallb] in Hs. apply andb_true_iff in Hs as [Hx Hs].
+      cbn [dec_value]. apply IHs; [unfold is_decimal in Hx; lia|exact Hs]. }
+    apply G; [lia|exact Ed].
+Qed.
+
+Theorem parse_field_encodable c f st raw st' v :
+  parse_field c f st = Ok (raw, st') -> ctor_field f raw = Ok v -> val_encodable f v.
+Proof.
+  destruct f as [maxv| |tokmax ctormax ne| | |sc| |v6| | |]; cbn [parse_field]; intros H Hc.
   - unfold get_uint, as_uint in H.
     destruct (get_unescaped st) as [[t s1]| |]; cbn [bind fst snd] in H; try discriminate.
     destruct (as_int t 10) as [z| |]; cbn [bind fst snd] in H; try discriminate.
     destruct ((z <? 0) || (z >? maxv)) eqn:E; cbn [bind fst snd] in H; try discriminate.
-    inversion H; subst. cbn [val_encodable]. lia.
+    inversion H; subst. cbn [ctor_field] in Hc. inversion Hc; subst. cbn [val_encodable]. lia.
   - unfold get_ttl in H.
     destruct (get_unescaped st) as [[t s1]| |]; cbn [bind fst snd] in H; try discriminate.
     destruct (negb (is_identifier t)); try discriminate. unfold ttl_from_text in H.
@@ -103,17 +122,26 @@ Proof.
               else if is_nil (tvalue t) then Lib eBadTTL else ttl_loop (tvalue t) 0 0 true) as [z| |];
       cbn [bind fst snd] in H; try discriminate.
     destruct ((z <? 0) || (z >? MAX_TTL)) eqn:E; cbn [bind fst snd] in H; try discriminate.
-    inversion H; subst. cbn [val_encodable]. lia.
+    inversion H; subst. cbn [ctor_field] in Hc. inversion Hc; subst. cbn [val_encodable]. lia.
   - destruct (get_string_as_bytes st tokmax) as [[b s1]| |]; cbn [bind fst snd] in H; try discriminate.
+    inversion H; subst. cbn [ctor_field] in Hc.
     destruct (negb (ctormax =? 0) && (zlen b >? ctormax)) eqn:E; try discriminate.
-    destruct (ne && is_nil b); try discriminate.
-    inversion H; subst. cbn [val_encodable]. lia.
+    destruct (ne && is_nil b); try discriminate. inversion Hc; subst. cbn [val_encodable]. lia.
   - destruct (get_name c st) as [[n s1]| |]; cbn [bind fst snd] in H; try discriminate.
-    inversion H; subst. exact Logic.I.
+    inversion H; subst. cbn [ctor_field] in Hc. inversion Hc; subst. exact Logic.I.
   - destruct v; exact Logic.I.
   - destruct v; exact Logic.I.
   - destruct v; exact Logic.I.
   - destruct v; exact Logic.I.
+  - destruct raw as [z0|b|n0|l0]; cbn [ctor_field] in Hc; try (inversion Hc; subst; exact Logic.I).
+    destruct (zlen b >? 255) eqn:E; try discriminate. inversion Hc; subst. cbn [val_encodable]. lia.
+  - destruct (get_string st 0) as [[t s1]| |]; cbn [bind fst snd] in H; try discriminate. inversion H; subst.
+    cbn [ctor_field] in Hc.
+    destruct (alg_from_text t) as [z| |] eqn:E; cbn [bind] in Hc; try discriminate. inversion Hc; subst.
+    cbn [val_encodable]. eapply alg_from_text_range; eauto.
+  - destruct raw as [z0|b|n0|l0]; cbn [ctor_field] in Hc; try (inversion Hc; subst; exact Logic.I).
+    destruct ((zlen b >? 255) || is_nil b || negb (forallb is_alnum b)) eqn:E; try discriminate.
+    inversion Hc; subst. cbn [val_encodable]. lia.
 Qed.
 
 (* names accepted from text satisfy the DNS limits (hence to_wire with an origin cannot fail on length) *)
